@@ -53,6 +53,14 @@ func roots(tier string) []world.Root {
 		// the resume limit reached: MaxResumesPerSession = 1
 		out = append(out, world.Root{Flows: &sets[i], Trigger: "manual", Opt: world.Options{MaxSteps: 8, MaxResumes: 1}})
 	}
+	// the voice family: dial waits (which accept dial resumes and reject msg/timeout ones)
+	voice := world.EnumFlowSets([]string{"A", "D", "W", "Eo"}, 2, 1)
+	for i := range voice {
+		for j := range voice[i].Flows {
+			voice[i].Flows[j].Type = "voice"
+		}
+		out = append(out, world.Root{Flows: &voice[i], Trigger: "voice", Opt: world.Options{MaxSteps: 8}})
+	}
 	return out
 }
 
@@ -71,7 +79,11 @@ func run(c *mc.Ctx) {
 			break
 		}
 		root := &rs[i]
-		cfg := sm.Cfg{Depth: depth, Events: world.Events, Regimes: []bool{true}, ChoiceBound: 0}
+		evs := world.Events
+		if root.Trigger == "voice" {
+			evs = append(append([]string{}, world.Events...), "dial:answered")
+		}
+		cfg := sm.Cfg{Depth: depth, Events: evs, Regimes: []bool{true}, ChoiceBound: 0}
 		cfg.OnNewState = func(t *sm.Trans) { onState(c, t) }
 		st := sm.Search(root, cfg)
 		c.Inc("roots")
@@ -428,6 +440,9 @@ func evaluate(c *mc.Ctx, st *state, rp *replay, count bool) []sm.Problem {
 	switch {
 	case a.err != nil && errors.As(a.err, &ee):
 		if count {
+			if rp.Root.Trigger == "voice" && evType(rp.Ev) == "msg" {
+				c.Fact("msg_resume_rejected_by_dial_wait")
+			}
 			c.Outcome(fmt.Sprintf("rejected:%d fault=%s", ee.Code(), faultClass))
 			c.Fact(fmt.Sprintf("error_%d", ee.Code()))
 		}
@@ -610,10 +625,10 @@ func init() {
 		Assumptions: []string{"single faults only in the quick tier", "asset faults are edits of the asset document between sprints; the session is re-read with assets.IgnoreMissing as hosts do"},
 		Run:         run,
 		Replay:      replayFn,
-		Budget:      map[string]time.Duration{"quick": 4 * time.Minute, "thorough": 25 * time.Minute},
+		Budget:      map[string]time.Duration{"quick": 8 * time.Minute, "thorough": 30 * time.Minute},
 		Guards: func(r *mc.Result, tier string) []string {
 			var f []string
-			for _, fact := range []string{"error_101", "error_102", "error_103", "resume_limit_reached", "impossible:waiting-flow-deleted", "impossible:waiting-node-deleted", "impossible:router-removed", "impossible:wait-removed"} {
+			for _, fact := range []string{"error_101", "error_102", "error_103", "resume_limit_reached", "impossible:waiting-flow-deleted", "impossible:waiting-node-deleted", "impossible:router-removed", "impossible:wait-removed", "msg_resume_rejected_by_dial_wait"} {
 				if r.Facts[fact] == 0 {
 					f = append(f, "never observed: "+fact)
 				}
